@@ -1,7 +1,34 @@
 package c41
 
-import "verif/lib/nrun"
+import (
+	"verif/checks/c02/iscen"
+	"verif/checks/c03/bscen"
+	"verif/checks/c04/cscen"
+	"verif/checks/c07/gscen"
+	"verif/checks/c10/escen"
+	"verif/checks/c11/tscen"
+	"verif/checks/c13/xscen"
+	"verif/lib/nrun"
+)
 
-// extraPlans collects the scenario families of the other engine-N checks as
-// they become importable packages.
-func extraPlans() []nrun.Plan { return nil }
+// extraPlans collects the scenario families of the other engine-N checks
+// (their importable scenario packages). Only the first scenario(s) of the
+// larger families are taken: under -race an execution costs ~30x.
+func extraPlans() []nrun.Plan {
+	var out []nrun.Plan
+	take := func(ps []nrun.Plan, n int) {
+		if n > len(ps) {
+			n = len(ps)
+		}
+		out = append(out, ps[:n]...)
+	}
+	take(iscen.Plans(), 2)    // idempotent producer, two partitions / fail paths
+	take(bscen.Plans(), 2)    // buffering limits, blocked Produce, Flush
+	take(cscen.Plans(), 4)    // direct consumer: topics, read_committed, explicit partitions, split fetches
+	take(gscen.PlansC07(), 3) // group joins/leaves: eager, cooperative, 848
+	take(gscen.PlansC08(), 2) // autocommit with restarts
+	take(tscen.Plans(), 2)    // transactions
+	take(escen.Plans(), 1)    // GroupTransactSession ETL
+	take(xscen.Plans(), 4)    // Close placements: produce, consume, consume-limited, group
+	return out
+}
